@@ -264,6 +264,19 @@ func (p *c16) placeholders(x *res, adapter string, kind string, pool int, ctx *r
 			}
 			ops["update"] = adapt.Op{Kind: adapt.OpUpdate, Table: spec.Name, Key: key, Update: "SET w = :w", Cond: expr, Names: nm, Values: uv2}
 			opNames := []string{"delete", "put", "query", "scan", "update"}
+			if kind == "names" && len(usedNames) > 0 {
+				// the same #names used in a ProjectionExpression (alone, and split between projection and filter):
+				// a placeholder counts as used wherever in the request it occurs
+				proj := strings.Join(usedNames, ", ")
+				ops["get-projection"] = adapt.Op{Kind: adapt.OpGet, Table: spec.Name, Key: key, Proj: proj, Names: nm}
+				ops["scan-projection"] = adapt.Op{Kind: adapt.OpScan, Table: spec.Name, Proj: proj, Names: nm}
+				ops["query-projection"] = adapt.Op{Kind: adapt.OpQuery, Table: spec.Name, KeyCnd: "h = :h", Proj: proj, Names: nm, Values: val.Item{":h": val.Str("k")}}
+				opNames = append(opNames, "get-projection", "scan-projection", "query-projection")
+				if len(usedNames) > 1 {
+					ops["scan-projection+filter"] = adapt.Op{Kind: adapt.OpScan, Table: spec.Name, Proj: usedNames[0], Filter: strings.Join(clauses[1:], " AND "), Names: nm, Values: vs}
+					opNames = append(opNames, "scan-projection+filter")
+				}
+			}
 			sort.Strings(opNames)
 			for _, on := range opNames {
 				op := ops[on]
